@@ -359,15 +359,28 @@ fn checksum(frames: &[Vec<u8>]) -> u64 {
 /// tag frame (`TG`, origin, seq, frame count, checksum over the other frames).
 /// Any message seen anywhere identifies the unique send it came from, and
 /// merged / split / truncated / altered messages fail the checksum.
+///
+/// A quarter of all (origin, seq) pairs additionally end in one **empty frame**
+/// after the tag (marked `TE` in the tag, so a lost or spurious trailing frame is
+/// still detected): a message whose last frame has no body completes without any
+/// further byte arriving, which is a code path of its own in a decoder.
 pub fn tagged(origin: u16, seq: u32, shape: &[usize]) -> Frames {
     let mut frames: Frames = shape
         .iter()
         .enumerate()
         .map(|(i, l)| fill_frame(origin, seq, i, *l))
         .collect();
-    let tag = make_tag(origin, seq, &frames);
+    let te = trailing_empty(origin, seq);
+    let tag = make_tag(origin, seq, &frames, te);
     frames.push(tag);
+    if te {
+        frames.push(Vec::new());
+    }
     frames
+}
+
+pub fn trailing_empty(origin: u16, seq: u32) -> bool {
+    (origin as u32).wrapping_mul(7).wrapping_add(seq) % 4 == 3
 }
 
 /// Tagged message whose first frames are given verbatim (topic, envelope...).
@@ -376,14 +389,18 @@ pub fn tagged_with_prefix(origin: u16, seq: u32, prefix: &[Vec<u8>], shape: &[us
     for (i, l) in shape.iter().enumerate() {
         frames.push(fill_frame(origin, seq, i, *l));
     }
-    let tag = make_tag(origin, seq, &frames);
+    let te = trailing_empty(origin, seq);
+    let tag = make_tag(origin, seq, &frames, te);
     frames.push(tag);
+    if te {
+        frames.push(Vec::new());
+    }
     frames
 }
 
-fn make_tag(origin: u16, seq: u32, body: &[Vec<u8>]) -> Vec<u8> {
+fn make_tag(origin: u16, seq: u32, body: &[Vec<u8>], trailing_empty: bool) -> Vec<u8> {
     let mut t = Vec::with_capacity(TAG_LEN);
-    t.extend_from_slice(b"TG");
+    t.extend_from_slice(if trailing_empty { b"TE" } else { b"TG" });
     t.extend_from_slice(&origin.to_be_bytes());
     t.extend_from_slice(&seq.to_be_bytes());
     t.extend_from_slice(&((body.len() + 1) as u16).to_be_bytes());
@@ -403,10 +420,15 @@ pub fn parse_tag(frames: &[Vec<u8>], skip: usize) -> Result<Tag, String> {
     if frames.len() < skip + 1 {
         return Err(format!("message has {} frames, no tag", frames.len()));
     }
+    let is_tag = |f: &Vec<u8>, kind: &[u8; 2]| f.len() == TAG_LEN && &f[..2] == kind;
+    // `TE` tags are followed by exactly one empty frame, `TG` tags by nothing
+    let frames: &[Vec<u8>] = match frames.last() {
+        Some(l) if is_tag(l, b"TG") => frames,
+        Some(l) if is_tag(l, b"TE") => return Err("the empty frame that ended this message is missing".into()),
+        Some(l) if l.is_empty() && frames.len() >= skip + 2 && is_tag(&frames[frames.len() - 2], b"TE") => &frames[..frames.len() - 1],
+        _ => return Err("last frame is not a tag".into()),
+    };
     let t = frames.last().unwrap();
-    if t.len() != TAG_LEN || &t[..2] != b"TG" {
-        return Err("last frame is not a tag".into());
-    }
     let origin = u16::from_be_bytes([t[2], t[3]]);
     let seq = u32::from_be_bytes([t[4], t[5], t[6], t[7]]);
     let n = u16::from_be_bytes([t[8], t[9]]) as usize;
